@@ -19,6 +19,7 @@ def strategy():
         cond_rate=6,
         fancy_names=False,
         sparse_rate=3,
+        locked_rate=7,
     )
 
 
